@@ -7,6 +7,7 @@
  * the root prefix is removed from every path that is printed.
  */
 #define _GNU_SOURCE
+#include <dirent.h>
 #include <errno.h>
 #include <inttypes.h>
 #include <stdbool.h>
@@ -213,13 +214,28 @@ static void finish_read(int o, econf_err e, econf_file *res)
 
 /* after all handles of a scenario were released: nothing may be left */
 static TL int started = 0;
+/* open file descriptors of the process: streams the library opened and never closed stay reachable through the C
+   library's list of open FILEs, so LeakSanitizer does not see them — the descriptor count does */
+static int open_fds(void)
+{
+  int n = 0; DIR *d = opendir("/proc/self/fd");
+  if (!d) return -1;
+  while (readdir(d)) n++;
+  closedir(d);
+  return n;
+}
+static int fd_baseline = -1;
 static void end_scenario(void)
 {
-  if (!started) { started = 1; return; }
+  if (!started) { started = 1; if (!thread_mode) fd_baseline = open_fds(); return; }
 #ifdef __SANITIZE_ADDRESS__
   if (!thread_mode && __lsan_do_recoverable_leak_check())
     printf("leak\n");
 #endif
+  if (!thread_mode && fd_baseline >= 0) {
+    int now = open_fds();
+    if (now > fd_baseline) { printf("leak\n"); fd_baseline = now; }      /* reported once per leaked descriptor set */
+  }
 }
 
 static econf_file *obj(const char *tok) { int i = atoi(tok); return (i >= 0 && i < MAXOBJ) ? objs[i] : NULL; }
@@ -597,7 +613,7 @@ static void run_stream(FILE *in)
       printf("rc=%d\n", econf_newKeyFile_with_options(&objs[o], m)); free(opts); free(m);
     } else if (!strcmp(c, "readfile")) {
       int o = atoi(t[1]); if (objs[o]) econf_free(objs[o]); objs[o] = NULL;
-      char *p = dec(t[2]), *real = vpath(p), *dl = argstr(t[3], dlbuf), *cm = argstr(t[4], cmbuf);
+      char *p = dec(t[2]), *real = p ? vpath(p) : NULL, *dl = argstr(t[3], dlbuf), *cm = argstr(t[4], cmbuf);
       econf_file *res = NULL; begin_lib();
       econf_err e = cb_mode ? econf_readFileWithCallback(&res, real, dl, cm, the_callback, &cb_data_token) : econf_readFile(&res, real, dl, cm);
       end_lib(); finish_read(o, e, res); free(p); free(real); argfree(dl); argfree(cm);
